@@ -199,7 +199,7 @@ fn explore_graph(name: &str, g: &GrammarSpec, f: &Factory, vocab: &VocabSpec, ma
 
 fn c03_items(ctx: &Ctx) -> Vec<(String, GrammarSpec, Vec<Vec<u8>>)> {
     let mut v = vec![];
-    for (i, s) in jsongen::all_schemas(ctx.quick()).into_iter().enumerate() {
+    for (i, s) in jsongen::all_schemas_x(ctx.quick()).into_iter().enumerate() {
         v.push((format!("js{i}"), GrammarSpec::Json(s), vec![]));
     }
     for it in corpus::json_items().into_iter().chain(corpus::regex_items()) {
@@ -211,7 +211,7 @@ fn c03_items(ctx: &Ctx) -> Vec<(String, GrammarSpec, Vec<Vec<u8>>)> {
             v.push((it.name.clone(), it.g.clone(), it.sentences.clone()));
         }
     }
-    for it in crate::gen::lark_family(ctx.tier.pick(3, 4)) {
+    for it in crate::gen::lark_family(ctx.tier.pick(4, 5)) {
         v.push((it.name.clone(), it.g.clone(), it.sentences.clone()));
     }
     v
@@ -230,8 +230,8 @@ pub fn run(ctx: &Ctx) -> Coverage {
     b256m.eos = b256m.tokens.len() as u32 - 1;
     b256m.name = "B256+M".into();
     let vocabs = if ctx.quick() { vec![b256m] } else { vec![b256, b256m] };
-    let depth = ctx.tier.pick(7, 14);
-    let max_states = ctx.tier.pick(1500, 40000);
+    let depth = ctx.tier.pick(10, 16);
+    let max_states = ctx.tier.pick(10000, 100000);
     let jobs: Vec<(usize, usize)> = (0..items.len()).flat_map(|i| (0..vocabs.len()).map(move |v| (i, v))).collect();
     jobs.par_iter().for_each(|(i, v)| {
         if ctx.over_budget() {
